@@ -738,10 +738,11 @@ func leakCheck(batch []fcase) {
 		for _, l := range strings.Split(g.Text, "\n") {
 			if strings.Contains(l, "mosdns/v5/pkg/upstream/transport.") {
 				top = strings.TrimSpace(l)
-				if i := strings.IndexByte(top, '('); i > 0 {
-					top = top[:i]
+				if i := strings.LastIndexByte(top, '('); i > 0 {
+					top = top[:i] // drop the argument list
 				}
 				top = top[strings.LastIndexByte(top, '/')+1:]
+				top = strings.NewReplacer("(", "", ")", "", "*", "").Replace(top)
 				break
 			}
 		}
